@@ -61,6 +61,20 @@ func runC14(w *World, r *Report) {
 	r.Rule("escape", "no function returns a pointer or slice into package-level storage", 1)
 	r.Rule("registry-ro", "pointers loaded from package-level tables are not written through, retained or returned", 1)
 	r.Rule("noscratch", "no pooled or function-level scratch state shared between calls", 1)
+	if r.Prop == "C14" {
+		// a builder that writes through (or keeps) an argument makes goroutines that pass the same read-only
+		// value interfere: the argument rules of C17 for the generic match-field builder
+		r.Rule("argsafe", "the generic builder neither writes through nor keeps its value and mask arguments", 2)
+		r2 := NewReport(r.Prop, r.Tier)
+		runC17(w, r2)
+		for _, o := range r2.Obs {
+			if o.Rule == "nomutate" || o.Rule == "convform" {
+				o.Subject = o.Rule + ":" + o.Subject
+				o.Rule = "argsafe"
+				r.Add(o)
+			}
+		}
+	}
 
 	// ---------------- atomic
 	cm := w.ByName["common"]
@@ -390,8 +404,15 @@ func escapeRule(w *World, r *Report, only *ssa.Function) int {
 						}
 					}
 				}
-				if g == nil || g.Pkg == nil || g.Pkg.Pkg == nil || !strings.HasPrefix(g.Pkg.Pkg.Path(), w.ModPath) {
+				if g == nil || g.Pkg == nil || g.Pkg.Pkg == nil {
 					continue
+				}
+				if !strings.HasPrefix(g.Pkg.Pkg.Path(), w.ModPath) {
+					// a slice or map held by a package-level variable of another package (net.IPv4zero): shared
+					// with the whole process just the same; only a loaded reference value is of interest
+					if _, isLoad := ins.(*ssa.UnOp); !isLoad {
+						continue
+					}
 				}
 				seeds = append(seeds, v)
 				names[g.Pkg.Pkg.Name()+"."+g.Name()] = true
